@@ -4,11 +4,12 @@ package main
 // resolution (decision tables of TagSource / schemeToRecv, sender resolution order, message body).
 
 import (
-	"golang.org/x/tools/go/cfg"
 	"fmt"
 	"go/ast"
 	"go/token"
 	"go/types"
+	"golang.org/x/tools/go/cfg"
+	"regexp"
 	"sort"
 	"strings"
 
@@ -268,7 +269,7 @@ func closeDisposition(info *types.Info, fd *ast.FuncDecl, closeCall *ast.CallExp
 func rulePollLookup(c *Ctx) {
 	pk := c.P.Pkg(pkgPoll)
 	info := pk.TypesInfo
-	get := funcDecl(pk, "connections", "get")
+	get := pollMethod(pk, "get")
 	proc := funcDecl(pk, "PollWorker", "Process")
 	if get == nil || proc == nil {
 		c.und("poll/lookup", 0, "connections.get / PollWorker.Process not found")
@@ -346,6 +347,27 @@ func rulePollLookup(c *Ctx) {
 					if (strings.HasSuffix(l, ".id") && mentionsObj(info, be.X, rv) && isObj(info, be.Y, idp)) || (strings.HasSuffix(r, ".id") && mentionsObj(info, be.Y, rv) && isObj(info, be.X, idp)) {
 						if ret, ok := ifs.Body.List[len(ifs.Body.List)-1].(*ast.ReturnStmt); ok && len(ret.Results) == 2 && isObj(info, ret.Results[0], rv) && exprString(ret.Results[1]) == "true" {
 							idMatch = true
+							// the search runs whenever an id is given: the only condition it may stand under
+							// is "an id was given" (`id != ""`), on the side where it is
+							for _, a := range enclosing(get.Body, rs) {
+								outer, isIf := a.(*ast.IfStmt)
+								if !isIf {
+									continue
+								}
+								given := false
+								if cb, ok := ast.Unparen(outer.Cond).(*ast.BinaryExpr); ok && containsNode(outer.Body, rs) {
+									x, y := ast.Unparen(cb.X), ast.Unparen(cb.Y)
+									if cb.Op == token.NEQ && ((isObj(info, x, idp) && exprString(y) == `""`) || (isObj(info, y, idp) && exprString(x) == `""`)) {
+										given = true
+									}
+									if call, isCall := x.(*ast.CallExpr); isCall && cb.Op == token.GTR && exprString(call.Fun) == "len" && len(call.Args) == 1 && isObj(info, call.Args[0], idp) && exprString(y) == "0" {
+										given = true
+									}
+								}
+								if !given {
+									idMatch = false
+								}
+							}
 						}
 					}
 				}
@@ -596,11 +618,34 @@ func ruleSenderResolution(c *Ctx) {
 				if i < len(as.Rhs) {
 					r = as.Rhs[i]
 				}
+				// the resolution may live in a helper of the package: each of its returns is a definition
+				// under the helper's own conditions (guard clauses included), parameters ↦ arguments
+				if call, isCall := ast.Unparen(r).(*ast.CallExpr); isCall && len(as.Lhs) == 1 {
+					if hd := helperReturnDefs(pk, env, call); len(hd) > 0 {
+						outer := env.enclosingCondsStrict(fd.Body, as)
+						for _, h := range hd {
+							defs = append(defs, def{h.prov, append(append([]string(nil), outer...), h.conds...), as.Pos() + token.Pos(len(defs))})
+						}
+						continue
+					}
+				}
 				defs = append(defs, def{env.prov(r), env.enclosingCondsStrict(fd.Body, as), as.Pos()})
 			}
 		}
 		return true
 	})
+	// a value returned / kept only where it was found non-nil is the same definition as the value
+	// itself (where it is nil the fallback guarded by `== nil` applies)
+	for i := range defs {
+		var kept []string
+		for _, cnd := range defs[i].conds {
+			if cnd == "("+defs[i].prov+" != nil)" {
+				continue
+			}
+			kept = append(kept, cnd)
+		}
+		defs[i].conds = kept
+	}
 	sort.Slice(defs, func(i, j int) bool { return defs[i].pos < defs[j].pos })
 	var got []string
 	for _, d := range defs {
@@ -1016,7 +1061,7 @@ func ruleRouterFirstMatch(c *Ctx) {
 func rulePollReplace(c *Ctx) {
 	pk := c.P.Pkg(pkgPoll)
 	info := pk.TypesInfo
-	rmv := funcDecl(pk, "connections", "rmv")
+	rmv := pollMethod(pk, "rmv")
 	if rmv == nil {
 		c.und("poll/replace", 0, "connections.rmv not found")
 		return
@@ -1044,7 +1089,10 @@ func rulePollReplace(c *Ctx) {
 	for a := range atoms {
 		switch {
 		case strings.Contains(a, ".id ==") || strings.Contains(a, ".id)"):
-			idEq = a
+			// the id of the registered connection against the id of the reported one
+			if l, op, r, isCmp := splitCmpOp(a); isCmp && op == "==" && strings.HasSuffix(l, ".id") && strings.HasSuffix(r, ".id") {
+				idEq = a
+			}
 		case strings.Contains(a, ".ch =="):
 			chEq = a
 		case strings.HasPrefix(a, "param:"):
@@ -1074,17 +1122,18 @@ func rulePollReplace(c *Ctx) {
 				continue
 			}
 			flag := exprString(call.Args[1])
+			inAdd := pollMethod(pk, "add") == fd
 			switch {
-			case flag == "true" && funcName(fd) == "PollWorker.Start":
-				nTrue++
-			case flag == "false" && funcName(fd) == "connections.add":
+			case flag == "true" && !inAdd:
+				nTrue++ // a reported disconnect (in the worker loop or a method it hands the event to)
+			case flag == "false" && inAdd:
 				nFalse++
 			default:
 				bad++
 			}
 		}
 	}
-	c.check(nTrue >= 2 && nFalse == 1 && bad == 0, "poll/replace/call-sites", rmv.Pos(), "disconnects remove with match=true, add replaces with match=false", fmt.Sprintf("rmv call sites changed (disconnect/match=true: %d, add/match=false: %d, other: %d)", nTrue, nFalse, bad))
+	c.check(nTrue >= 1 && nFalse == 1 && bad == 0, "poll/replace/call-sites", rmv.Pos(), "disconnects remove with match=true, add replaces with match=false", fmt.Sprintf("rmv call sites changed (disconnect/match=true: %d, add/match=false: %d, other: %d)", nTrue, nFalse, bad))
 }
 
 // rulePollAddress (C19): the listener id of poll://group/id is the whole path after the leading
@@ -1121,4 +1170,555 @@ func rulePollAddress(c *Ctx) {
 	if !ok {
 		o.Expected, o.Found = want+` when non-empty`, got+" when "+conds
 	}
+}
+
+// rulePollChannels (C18): the registry is driven by two channels whose roles must not be mixed up:
+// what arrives on `connect` is registered (connections.add), what arrives on `disconnect` is
+// unregistered with the channel match (connections.rmv(conn, true)); the handler's Connect sends on
+// `connect`, its Disconnect on `disconnect`. A swapped channel compiles (both carry *connection) and
+// turns every disconnect into a registration of a dead listener, or the reverse.
+func rulePollChannels(c *Ctx) {
+	pk := c.P.Pkg(pkgPoll)
+	if pk == nil {
+		c.und("poll/channels", 0, "poll package not loaded")
+		return
+	}
+	info := pk.TypesInfo
+	role := map[string]string{"connect": "add", "disconnect": "rmv"}
+	// receives
+	nRecv := 0
+	for _, fd := range allFuncDecls(pk) {
+		if fd.Body == nil || isTestFile(c.P, fd.Pos()) {
+			continue
+		}
+		ast.Inspect(fd.Body, func(nd ast.Node) bool {
+			cc, ok := nd.(*ast.CommClause)
+			if !ok || cc.Comm == nil {
+				return true
+			}
+			var recv *ast.UnaryExpr
+			var val types.Object
+			switch s := cc.Comm.(type) {
+			case *ast.AssignStmt:
+				if len(s.Rhs) == 1 {
+					if u, ok := ast.Unparen(s.Rhs[0]).(*ast.UnaryExpr); ok && u.Op == token.ARROW {
+						recv = u
+						if id, ok := s.Lhs[0].(*ast.Ident); ok {
+							val = info.Defs[id]
+							if val == nil {
+								val = info.Uses[id]
+							}
+						}
+					}
+				}
+			case *ast.ExprStmt:
+				if u, ok := ast.Unparen(s.X).(*ast.UnaryExpr); ok && u.Op == token.ARROW {
+					recv = u
+				}
+			}
+			if recv == nil {
+				return true
+			}
+			se, ok := ast.Unparen(recv.X).(*ast.SelectorExpr)
+			if !ok {
+				return true
+			}
+			want, isRole := role[se.Sel.Name]
+			if !isRole {
+				return true
+			}
+			nRecv++
+			key := fmt.Sprintf("poll/channels/%s/recv-%s#%d", funcName(fd), se.Sel.Name, nRecv)
+			found, other := false, false
+			for _, st := range cc.Body {
+				a, r, o := registryEffects(pk, st, val, 0)
+				switch want {
+				case "add":
+					found = found || a > 0
+					other = other || r > 0 || o > 0
+				case "rmv":
+					found = found || r > 0
+					other = other || a > 0 || o > 0
+				}
+			}
+			c.check(found && !other, key, cc.Pos(), "what arrives on "+se.Sel.Name+" is handed to connections."+want, "what arrives on the `"+se.Sel.Name+"` channel is not handed to connections."+want+" (with the channel match for a disconnect): registrations and removals are mixed up — a disconnect registers a dead listener, or a connect removes a live one")
+			return true
+		})
+	}
+	c.floor("receives from the poll registry channels", nRecv, 4)
+	// sends
+	for fnName, ch := range map[string]string{"Connect": "connect", "Disconnect": "disconnect"} {
+		fd := funcDecl(pk, "PollHandler", fnName)
+		key := "poll/channels/PollHandler." + fnName + "/send"
+		if fd == nil {
+			c.und(key, 0, "PollHandler."+fnName+" not found")
+			continue
+		}
+		var sends []string
+		ast.Inspect(fd.Body, func(nd ast.Node) bool {
+			if ss, ok := nd.(*ast.SendStmt); ok {
+				if se, ok := ast.Unparen(ss.Chan).(*ast.SelectorExpr); ok {
+					sends = append(sends, se.Sel.Name)
+				} else {
+					sends = append(sends, exprString(ss.Chan))
+				}
+			}
+			return true
+		})
+		c.check(len(sends) == 1 && sends[0] == ch, key, fd.Pos(), fnName+" sends on "+ch, fmt.Sprintf("PollHandler.%s sends on %v instead of exactly `%s`: the worker takes the event for the opposite one", fnName, sends, ch))
+	}
+}
+
+// registryEffects counts, inside a node, the registrations (connections.add(obj)), the matched
+// removals (connections.rmv(obj, true)) and the other registry calls made with obj — directly or
+// through a function of the package that receives obj as an argument (two levels).
+func registryEffects(pk *packages.Package, n ast.Node, obj types.Object, depth int) (adds, rmvs, others int) {
+	info := pk.TypesInfo
+	if obj == nil || n == nil {
+		return
+	}
+	ast.Inspect(n, func(x ast.Node) bool {
+		if _, isLit := x.(*ast.FuncLit); isLit {
+			return false
+		}
+		call, ok := x.(*ast.CallExpr)
+		if !ok {
+			return true
+		}
+		fn, ok := calleeOf(info, call).(*types.Func)
+		if !ok || fn.Pkg() != pk.Types {
+			return true
+		}
+		sig := fn.Type().(*types.Signature)
+		addName, rmvName := pollMethodName(pk, "add"), pollMethodName(pk, "rmv")
+		if sig.Recv() != nil && namedName(derefType(sig.Recv().Type())) == "connections" && (fn.Name() == addName || fn.Name() == rmvName) {
+			if len(call.Args) >= 1 && isObj(info, call.Args[0], obj) {
+				switch {
+				case fn.Name() == addName:
+					adds++
+				case len(call.Args) == 2 && exprString(call.Args[1]) == "true":
+					rmvs++
+				default:
+					others++
+				}
+			}
+			return true
+		}
+		if depth >= 2 {
+			return true
+		}
+		fd := funcDeclOf(pk, fn)
+		if fd == nil || fd.Body == nil {
+			return true
+		}
+		for i, a := range call.Args {
+			if i < sig.Params().Len() && isObj(info, a, obj) {
+				a2, r2, o2 := registryEffects(pk, fd.Body, sig.Params().At(i), depth+1)
+				adds, rmvs, others = adds+a2, rmvs+r2, others+o2
+			}
+		}
+		return true
+	})
+	return
+}
+
+// rulePollRefusal (C18): ServeHTTP honours a refused registration: the outcome of Connect is tested
+// and on refusal the handler answers and returns without streaming (a handler that streams from a
+// connection the worker never registered waits for messages that cannot arrive, and later reports a
+// disconnect for a listener that was never added).
+func rulePollRefusal(c *Ctx) {
+	pk := c.P.Pkg(pkgPoll)
+	fd := funcDecl(pk, "PollHandler", "ServeHTTP")
+	key := "poll/handler/refusal"
+	if fd == nil {
+		c.und(key, 0, "PollHandler.ServeHTTP not found")
+		return
+	}
+	info := pk.TypesInfo
+	okRefusal, n := false, 0
+	var at token.Pos = fd.Pos()
+	ast.Inspect(fd.Body, func(nd ast.Node) bool {
+		call, ok := nd.(*ast.CallExpr)
+		if !ok {
+			return true
+		}
+		fn, ok := calleeOf(info, call).(*types.Func)
+		if !ok || fn.Name() != "Connect" || fn.Pkg() != pk.Types {
+			return true
+		}
+		n++
+		at = call.Pos()
+		// the innermost if statement whose condition is (the negation of) this call
+		for _, a := range enclosing(fd.Body, call) {
+			ifs, isIf := a.(*ast.IfStmt)
+			if !isIf || !containsNode(ifs.Cond, call) {
+				continue
+			}
+			cond := ast.Unparen(ifs.Cond)
+			neg := false
+			if u, isNot := cond.(*ast.UnaryExpr); isNot && u.Op == token.NOT {
+				neg = true
+				cond = ast.Unparen(u.X)
+			}
+			if cond != ast.Expr(call) {
+				continue
+			}
+			if neg && terminates(ifs.Body.List) {
+				okRefusal = true
+			}
+			if !neg {
+				if els, isBlk := ifs.Else.(*ast.BlockStmt); isBlk && terminates(els.List) {
+					okRefusal = true
+				}
+			}
+		}
+		return true
+	})
+	c.check(okRefusal && n == 1, key, at, "a refused registration ends the request", "ServeHTTP does not test the outcome of Connect and return on refusal: it streams from a connection the worker never registered")
+}
+
+// rulePollRegistry (C18): the registry's bookkeeping. (1) Every index into the registry map is the
+// addressed group: the `group` parameter of get, or the `group` of the connection being added /
+// removed (a listener filed under its id, or looked up under another key, is unreachable for the
+// group's messages). (2) The connection count `len` is incremented exactly where a connection is
+// appended and decremented exactly where one is closed and removed; the limit `max` is only read;
+// add refuses (closes the new channel, registers nothing) exactly when `len >= max`.
+func rulePollRegistry(c *Ctx) {
+	pk := c.P.Pkg(pkgPoll)
+	if pk == nil {
+		c.und("poll/registry", 0, "poll package not loaded")
+		return
+	}
+	info := pk.TypesInfo
+	nIdx := 0
+	for _, fd := range allFuncDecls(pk) {
+		if fd.Body == nil || isTestFile(c.P, fd.Pos()) {
+			continue
+		}
+		k := 0
+		ast.Inspect(fd.Body, func(nd ast.Node) bool {
+			ix, ok := nd.(*ast.IndexExpr)
+			if !ok {
+				return true
+			}
+			se, ok := ast.Unparen(ix.X).(*ast.SelectorExpr)
+			if !ok || se.Sel.Name != "conns" {
+				return true
+			}
+			if tv, ok := info.Types[ix.X]; !ok || !isMapType(tv.Type) {
+				return true
+			}
+			nIdx++
+			k++
+			good := false
+			switch x := ast.Unparen(ix.Index).(type) {
+			case *ast.Ident:
+				// the parameter named group (get), or the key of a range over the registry
+				if v, ok := info.Uses[x].(*types.Var); ok && (isParamVar(info, fd.Type, v) && x.Name == "group" || rangesOverConns(fd.Body, v, info)) {
+					good = true
+				}
+			case *ast.SelectorExpr:
+				if x.Sel.Name == "group" {
+					if tv, ok := info.Types[x.X]; ok && strings.HasSuffix(namedName(derefType(tv.Type)), "connection") {
+						good = true
+					}
+				}
+			}
+			c.check(good, fmt.Sprintf("poll/registry/key/%s#%d", funcName(fd), k), ix.Pos(), "the registry is indexed by the group", "the registry is indexed by "+exprString(ix.Index)+", which is not the addressed group: listeners are filed or looked up under the wrong key and the group's messages do not reach them")
+			return true
+		})
+	}
+	c.floor("indexes into the poll registry", nIdx, 4)
+	// counters
+	type site struct {
+		fn  string
+		inc bool
+		pos token.Pos
+		ok  bool
+	}
+	var sites []site
+	maxWritten := token.NoPos
+	for _, fd := range allFuncDecls(pk) {
+		if fd.Body == nil || isTestFile(c.P, fd.Pos()) {
+			continue
+		}
+		ast.Inspect(fd.Body, func(nd ast.Node) bool {
+			switch st := nd.(type) {
+			case *ast.IncDecStmt:
+				se, ok := ast.Unparen(st.X).(*ast.SelectorExpr)
+				if !ok {
+					return true
+				}
+				if tv, ok := info.Types[se.X]; !ok || namedName(derefType(tv.Type)) != "connections" {
+					return true
+				}
+				if se.Sel.Name == pollLimitField(pk) {
+					maxWritten = st.Pos()
+				}
+				if se.Sel.Name != "len" {
+					return true
+				}
+				// the statements of the same block
+				var blk []ast.Stmt
+				for _, a := range enclosing(fd.Body, st) {
+					switch b := a.(type) {
+					case *ast.BlockStmt:
+						blk = b.List
+					case *ast.CaseClause:
+						blk = b.Body
+					}
+				}
+				hasAppend, hasClose := false, false
+				for _, s2 := range blk {
+					switch s2.(type) {
+					case *ast.ExprStmt, *ast.AssignStmt:
+					default:
+						continue // only the statements of the block itself
+					}
+					for _, call := range callsIn(s2) {
+						f := exprString(call.Fun)
+						if f == "append" && len(call.Args) == 2 {
+							if as, ok := s2.(*ast.AssignStmt); ok && len(as.Lhs) == 1 && strings.Contains(exprString(as.Lhs[0]), ".conns[") {
+								hasAppend = true
+							}
+						}
+						if f == "close" {
+							hasClose = true
+						}
+					}
+				}
+				inc := st.Tok == token.INC
+				sites = append(sites, site{funcName(fd), inc, st.Pos(), (inc && hasAppend && !hasClose) || (!inc && hasClose)})
+			case *ast.AssignStmt:
+				for _, l := range st.Lhs {
+					if se, ok := ast.Unparen(l).(*ast.SelectorExpr); ok && (se.Sel.Name == pollLimitField(pk) || se.Sel.Name == "len") {
+						if tv, ok := info.Types[se.X]; ok && namedName(derefType(tv.Type)) == "connections" {
+							maxWritten = st.Pos()
+						}
+					}
+				}
+			}
+			return true
+		})
+	}
+	nInc, nDec, allOk := 0, 0, true
+	var firstBad token.Pos
+	for _, s := range sites {
+		if s.inc {
+			nInc++
+		} else {
+			nDec++
+		}
+		if !s.ok {
+			allOk = false
+			if !firstBad.IsValid() {
+				firstBad = s.pos
+			}
+		}
+	}
+	c.check(allOk && nInc == 1 && nDec >= 2 && !maxWritten.IsValid(), "poll/registry/count", firstBad, "len++ with the one append, len-- with every close; max only read", fmt.Sprintf("the connection count is not kept with the registry (increments with an append: %d, decrements with a close: %d, all paired: %v, limit or count assigned elsewhere: %v): the limit is enforced against a wrong number — listeners are refused although there is room, or admitted without bound", nInc, nDec, allOk, maxWritten.IsValid()))
+	// the refusal test of add
+	add := pollMethod(pk, "add")
+	if add == nil {
+		c.und("poll/registry/limit", 0, "connections.add not found")
+		return
+	}
+	limitOk := false
+	var at token.Pos = add.Pos()
+	// the older connection of the same listener is removed first: a reconnect replaces it (and frees
+	// its slot) also when the registry is full
+	replaced := false
+	var par types.Object
+	if add.Type.Params != nil && len(add.Type.Params.List) == 1 && len(add.Type.Params.List[0].Names) == 1 {
+		par = info.Defs[add.Type.Params.List[0].Names[0]]
+	}
+	for _, st := range add.Body.List {
+		if _, isIf := st.(*ast.IfStmt); !isIf {
+			if _, _, o := registryEffects(pk, st, par, 0); o > 0 {
+				replaced = true
+			}
+		}
+		ifs, ok := st.(*ast.IfStmt)
+		if !ok {
+			continue
+		}
+		be, ok := ast.Unparen(ifs.Cond).(*ast.BinaryExpr)
+		if !ok {
+			continue
+		}
+		l, r := exprString(ast.Unparen(be.X)), exprString(ast.Unparen(be.Y))
+		lim := "." + pollLimitField(pk)
+		full := (be.Op == token.GEQ && strings.HasSuffix(l, ".len") && strings.HasSuffix(r, lim)) || (be.Op == token.LEQ && strings.HasSuffix(l, lim) && strings.HasSuffix(r, ".len"))
+		closes, returns := false, false
+		for _, s2 := range ifs.Body.List {
+			for _, call := range callsIn(s2) {
+				if exprString(call.Fun) == "close" {
+					closes = true
+				}
+			}
+			if _, ok := s2.(*ast.ReturnStmt); ok {
+				returns = true
+			}
+		}
+		if closes && returns {
+			at = ifs.Pos()
+			limitOk = full && ifs.Else == nil && replaced
+		}
+	}
+	c.check(limitOk, "poll/registry/limit", at, "add replaces the listener's older connection, then refuses exactly when len >= max", "connections.add no longer removes the older connection of the same listener first and then refuses exactly when the count has reached the limit (`len >= max`): a reconnect at capacity is refused while the stale connection keeps receiving the listener's messages, listeners are refused although there is room, or the limit is not enforced")
+}
+
+func isMapType(t types.Type) bool {
+	_, ok := t.Underlying().(*types.Map)
+	return ok
+}
+
+func derefType(t types.Type) types.Type {
+	if p, ok := t.Underlying().(*types.Pointer); ok {
+		return p.Elem()
+	}
+	return t
+}
+
+// rangesOverConns: v is the key variable of a range over a `.conns` map in body.
+func rangesOverConns(body ast.Node, v *types.Var, info *types.Info) bool {
+	found := false
+	ast.Inspect(body, func(n ast.Node) bool {
+		if rs, ok := n.(*ast.RangeStmt); ok && rs.Key != nil {
+			if id, ok := rs.Key.(*ast.Ident); ok && info.Defs[id] == v && strings.HasSuffix(exprString(rs.X), ".conns") {
+				found = true
+			}
+		}
+		return true
+	})
+	return found
+}
+
+// ---- roles in the poll registry, found by shape rather than by name ----
+// (the registry type `connections`, its map `conns` and its counter `len` are pinned by the
+// package's own tests; the methods and the limit field are free to be renamed)
+
+// pollMethod: the method of the registry type playing a role:
+//
+//	get — returns (*connection, bool);  rmv — takes (*connection, bool);  add — takes one *connection.
+func pollMethod(pk *packages.Package, role string) *ast.FuncDecl {
+	if pk == nil {
+		return nil
+	}
+	info := pk.TypesInfo
+	isConn := func(t types.Type) bool {
+		return namedName(derefType(t)) == "connection" && namedPkgPath(derefType(t)) == pkgPoll
+	}
+	isBool := func(t types.Type) bool {
+		b, ok := t.Underlying().(*types.Basic)
+		return ok && b.Kind() == types.Bool
+	}
+	for _, fd := range allFuncDecls(pk) {
+		fn, ok := info.Defs[fd.Name].(*types.Func)
+		if !ok {
+			continue
+		}
+		sig := fn.Type().(*types.Signature)
+		if sig.Recv() == nil || namedName(derefType(sig.Recv().Type())) != "connections" {
+			continue
+		}
+		ps, rs := sig.Params(), sig.Results()
+		switch role {
+		case "get":
+			if rs.Len() == 2 && isConn(rs.At(0).Type()) && isBool(rs.At(1).Type()) {
+				return fd
+			}
+		case "rmv":
+			if ps.Len() == 2 && isConn(ps.At(0).Type()) && isBool(ps.At(1).Type()) && rs.Len() == 0 {
+				return fd
+			}
+		case "add":
+			if ps.Len() == 1 && isConn(ps.At(0).Type()) && rs.Len() == 0 {
+				return fd
+			}
+		}
+	}
+	return nil
+}
+
+func pollMethodName(pk *packages.Package, role string) string {
+	if fd := pollMethod(pk, role); fd != nil {
+		return fd.Name.Name
+	}
+	return role
+}
+
+// pollLimitField: the int field of the registry type that is not its counter `len`.
+func pollLimitField(pk *packages.Package) string {
+	if pk == nil {
+		return "max"
+	}
+	obj := pk.Types.Scope().Lookup("connections")
+	if obj == nil {
+		return "max"
+	}
+	st, ok := obj.Type().Underlying().(*types.Struct)
+	if !ok {
+		return "max"
+	}
+	for i := 0; i < st.NumFields(); i++ {
+		f := st.Field(i)
+		if b, ok := f.Type().Underlying().(*types.Basic); ok && b.Kind() == types.Int && f.Name() != "len" {
+			return f.Name()
+		}
+	}
+	return "max"
+}
+
+type retDef struct {
+	prov  string
+	conds []string
+}
+
+// helperReturnDefs: the value-carrying returns of the same-package function a call invokes, each
+// with the conditions that govern it inside the helper (early-exit guards included), in the
+// caller's terms.
+func helperReturnDefs(pk *packages.Package, env *provEnv, call *ast.CallExpr) []retDef {
+	info := pk.TypesInfo
+	fn, ok := calleeOf(info, call).(*types.Func)
+	if !ok || fn.Pkg() != pk.Types {
+		return nil
+	}
+	hd := funcDeclOf(pk, fn)
+	if hd == nil || hd.Body == nil || hd == env.fd {
+		return nil
+	}
+	sig := fn.Type().(*types.Signature)
+	if sig.Results().Len() != 1 || sig.Variadic() || sig.Params().Len() != len(call.Args) {
+		return nil
+	}
+	inner := newProvEnv(pk, hd)
+	subst := func(v string) string {
+		for i := 0; i < sig.Params().Len(); i++ {
+			pn := sig.Params().At(i).Name()
+			if pn == "" || pn == "_" || !strings.Contains(v, "param:"+pn) {
+				continue
+			}
+			re := regexp.MustCompile(`param:` + regexp.QuoteMeta(pn) + `\b`)
+			v = re.ReplaceAllLiteralString(v, env.prov(call.Args[i]))
+		}
+		return v
+	}
+	var out []retDef
+	ast.Inspect(hd.Body, func(n ast.Node) bool {
+		if _, isLit := n.(*ast.FuncLit); isLit {
+			return false
+		}
+		rs, ok := n.(*ast.ReturnStmt)
+		if !ok || len(rs.Results) != 1 {
+			return true
+		}
+		d := retDef{prov: subst(inner.prov(rs.Results[0]))}
+		for _, cnd := range inner.enclosingConds(hd.Body, rs) {
+			d.conds = append(d.conds, subst(cnd))
+		}
+		out = append(out, d)
+		return true
+	})
+	return out
 }
